@@ -86,7 +86,14 @@ FromJsonU(u) == CASE u.k = "cls" -> UCls(ToSet(u.s), u.neg)
                   [] u.k = "grp" -> UGrp(FromJsonU(u.a), u.cap)
                   [] u.k = "nou" -> UNoU(FromJsonU(u.a))
                   [] OTHER -> u
-UserSem(pt) == Norm(Wrapped(Joined([i \in 1..Len(pt.user) |-> FromJsonU(pt.user[i])]), pt.o))
+\* under --crlf the user's ^ and $ are the CRLF-aware assertions (the product evaluates looks without an environment)
+RECURSIVE CrlfLooks(_)
+CrlfLooks(r) == CASE r.k = "look" -> (IF r.l = "bol" THEN [r EXCEPT !.l = "bolc"] ELSE IF r.l = "eol" THEN [r EXCEPT !.l = "eolc"] ELSE r)
+                  [] r.k \in {"cat", "alt"} -> [r EXCEPT !.a = CrlfLooks(r.a), !.b = CrlfLooks(r.b)]
+                  [] r.k = "rep" -> [r EXCEPT !.a = CrlfLooks(r.a)]
+                  [] OTHER -> r
+UserSem(pt) == LET u == Norm(Wrapped(Joined([i \in 1..Len(pt.user) |-> FromJsonU(pt.user[i])]), pt.o)) IN
+               IF pt.o.crlf THEN CrlfLooks(u) ELSE u
 
 \* ---------------------------------------------------------------- the product
 VARIABLES idx, mode, U, H, prev, lp, lseen, umatch, hmatch, ended, w
